@@ -12,7 +12,7 @@ PROPERTY = 'C18'
 META = {
     'level': 'exploration',
     'technique': 'offline checker over recorded replay event streams (exactly-once, order, values, on-time) with a virtual clock substituted for the library timer; histories written by the real logger with unique record ids',
-    'text': 'Generated histories (1..8 rotated files, 1..30 records each incl. single-record files, equal timestamps inside files and across file boundaries, plain/gz/bz2 copies '
+    'text': 'Histories also live in directories and under base names containing glob / regex metacharacters, blanks and non-ASCII letters, and 12-file histories come in the delaycompress layout (newest and first rotated file plain, all older ones compressed only). Generated histories (1..8 rotated files, 1..30 records each incl. single-record files, equal timestamps inside files and across file boundaries, plain/gz/bz2 copies '
             'present together, comment lines, corrupt-JSON lines, corrupt-timestamp and tab-less lines) are written with the real history logger and replayed with the real loader. '
             'Time is a virtual clock that advances only between load rounds in tiny, irregular and huge steps, so every verdict is on logical time. For every round the checker '
             'requires: events are exactly the not-yet-delivered records whose time the historical clock plus look-ahead has reached (none early, none left behind), in logged order, '
